@@ -126,6 +126,52 @@ def run_drop_vs_close(spec):
                     res.violation("receiver-thread-died-when-drop-meets-close", label)
             finally:
                 sp.shutdown(2)
+        # a consumer that polls with a short timeout while the last items and the close arrive: held at every line of
+        # receive() in turn, it still gets every item before the end
+        rlines = imodel.function_lines(gb.Channel.receive)
+        res.info["polling_receive_sweep_lines"] = len(rlines)
+        for (fn, ln) in rlines:
+            for k in spec["ks"] + [4]:
+                if res.enough():
+                    break
+                sp = pairs.ScriptedPeer(tee=False, transport="pipe")
+                try:
+                    ch = sp.gw.newchannel()
+                    n = 5
+                    feed = b"".join(codec.frame(M["CHANNEL_DATA"], ch.id, codec.encode(("x", i), versioned=False)) for i in range(n))
+                    feed += codec.frame(M[rng.choice(("CHANNEL_CLOSE", "CHANNEL_LAST_MESSAGE"))], ch.id, b"")
+                    got: list = []
+
+                    def consumer():
+                        t_end = time.monotonic() + 10
+                        while time.monotonic() < t_end:
+                            try:
+                                got.append(ch.receive(0.004))
+                            except ch.TimeoutError:
+                                continue
+                            except EOFError:
+                                got.append("EOF")
+                                return
+                            except BaseException as e:  # noqa
+                                got.append(f"{type(e).__name__}: {e}")
+                                return
+
+                    pre.restart()
+                    pre.set_sweep(fn, ln, k, stall=0.06)
+                    ct = threading.Thread(target=consumer, daemon=True)
+                    ct.start()
+                    time.sleep(rng.choice((0.005, 0.015, 0.03)))
+                    sp.feed(feed)
+                    ct.join(15)
+                    pre.off()
+                    if pre.fired:
+                        res.count("polling_receive_sweep_fired")
+                    res.count("polling_receive_runs")
+                    res.case(core.h64("poll-vs-close", ln, k))
+                    if got != [("x", i) for i in range(n)] + ["EOF"]:
+                        res.violation("item-missing:polling-receive-meets-close", f"polling receive(0.004) held at line {ln} (hit {k}) while {n} items and the close arrive: got {short(got, 200)}")
+                finally:
+                    sp.shutdown(2)
     finally:
         pre.uninstall()
     return res
@@ -157,7 +203,7 @@ def gen_program(rng, small=False):
                     budget -= size
                     p.append(size)
                 pads.append(p)
-            mode = rng.choice(("receive", "iter", "callback", "compete"))
+            mode = rng.choice(("receive", "iter", "callback", "compete", "poll"))
             ch["dirs"][d] = {"pads": pads, "mode": mode, "nrecv": rng.choice((2, 3)) if mode == "compete" else 1,
                              # when the receiving end is attached: before any send, or while items are already in flight/queued
                              "attach": rng.choice((None, None, 0.0, 0.001, 0.004))}
